@@ -83,6 +83,14 @@ def generate(rng: random.Random, tier: str):
         for o1 in (False, True):
             yield {"kind": "history", "store": "tilde", "fmt": [fmt, fmt, fmt], "pre": "fresh", "entry": "arrays",
                    "calls": [dict(A, ov=False, validate=True), dict(B, ov=o1, validate=True), dict(C, ov=not o1, validate=True)]}
+    # a geff that shares its directory with foreign members (laid down through a store object), then addressed by path
+    for fmt in (2, 3):
+        for entry in ("nx", "rx", "arrays"):
+            for pre in ("fresh", "foreign"):
+                A, B, C = three_graphs(random.Random(23 + fmt))
+                calls = ([nx_graph(rng, False), nx_graph(rng, True), nx_graph(rng, False)] if entry != "arrays" else
+                         [dict(A, ov=False, validate=True), dict(B, ov=True, validate=True), dict(C, ov=False, validate=True)])
+                yield {"kind": "history", "store": "mixed", "fmt": [fmt, fmt, fmt], "pre": pre, "entry": entry, "calls": calls}
     for i in range(16 if tier == "quick" else 200):
         fmt = rng.choice([2, 3])
         yield {"kind": "history", "store": rng.choice(["mem", "local", "path", "str"]), "fmt": [fmt, fmt, fmt],
@@ -98,6 +106,34 @@ def nx_graph(rng, ov):
     ename = rng.choice(["w", "len"])
     return {"nx_nodes": [[i, {"t": float(rng.randint(0, 9)), **({extra: rng.randint(0, 5)} if extra else {})}] for i in ids],
             "nx_edges": [[ids[0], ids[-1], {ename: rng.randint(0, 9) / 2}]] if n >= 2 else [], "ov": ov, "validate": True}
+
+
+class capture_write_arrays:
+    """records the arguments the backend writers hand to write_arrays (write_dicts looks the name up in its module)"""
+
+    def __init__(self, sink):
+        self.sink = sink
+
+    def __enter__(self):
+        import inspect
+
+        import geff.core_io._base_write as bw
+
+        self.bw, self.orig = bw, bw.write_arrays
+        sig = inspect.signature(self.orig)
+
+        def spy(*a, **kw):
+            b = sig.bind(*a, **kw)
+            b.apply_defaults()
+            self.sink.append(dict(b.arguments))
+            return self.orig(*a, **kw)
+
+        bw.write_arrays = spy
+        return self
+
+    def __exit__(self, *exc):
+        self.bw.write_arrays = self.orig
+        return False
 
 
 def ovkw(call):
@@ -187,7 +223,7 @@ def open_target(c):
         p = scratch_dir() / name
         shutil.rmtree(p, ignore_errors=True)
         return (p if kind == "path" else str(p)), p, p
-    store, path = open_store(kind, "h")
+    store, path = open_store("local" if kind == "mixed" else kind, "h")
     return store, store, path
 
 
@@ -202,8 +238,13 @@ def run_impl(c):
         prepare(real, c["pre"], c["fmt"][0])
         pre_tree = dump_tree(real, it)
         coq_calls, coq_steps = [], []
-        modelled = c["entry"] == "arrays" and len(set(c["fmt"])) == 1
-        for call, fmt in zip(c["calls"], c["fmt"]):
+        modelled = c["entry"] == "arrays" and len(set(c["fmt"])) == 1 and c["store"] != "mixed"
+        api_modelled = c["entry"] in ("nx", "rx") and len(set(c["fmt"])) == 1 and c["store"] != "mixed"
+        first_store = store
+        for ci, (call, fmt) in enumerate(zip(c["calls"], c["fmt"])):
+            # "mixed": the first graph is written through a LocalStore object (so it may sit beside foreign members), the later calls
+            # address the same directory by its path
+            store = first_store if (c["store"] != "mixed" or ci == 0) else str(path)
             before_snap = snapshot(real)
             before_tree = dump_tree(real, it)
             existed = has_geff(real)
@@ -219,11 +260,26 @@ def run_impl(c):
                                      f"{cbool(call['validate'])} {cbool(call['ov'])})")
                 except HarnessError:
                     modelled = False
+            captured = []
             try:
-                do_call(c, call, store, fmt)
+                with capture_write_arrays(captured):
+                    do_call(c, call, store, fmt)
                 step["res"] = ["ok"]
             except Exception as e:
                 step["res"] = ["err", exn_name(e), str(e)[:100]]
+            if api_modelled:
+                try:
+                    if captured:
+                        a = captured[0]
+                        if not all(gg.printable_np(p["values"]) for ps in (a["node_props"], a["edge_props"]) if ps for p in ps.values()):
+                            raise HarnessError("unprintable")
+                        coq_calls.append(f"(mkcall {gg.c_wgraph(a['node_ids'], a['edge_ids'], a['node_props'], a['edge_props'], it)} "
+                                         f"{c_meta(abstract_meta_obj(a['metadata'], it))} {cbool(a['structure_validation'])} {cbool(call['ov'])})")
+                    else:  # the wrapper's guard refused before any array was built: the graph is irrelevant to the model
+                        coq_calls.append(f"(mkcall {gg.c_wgraph(np.empty(0, 'uint8'), np.empty((0, 2), 'uint8'), {}, {}, it)} "
+                                         f"{c_meta(abstract_meta_obj(gg.make_metadata({'directed': True}), it))} true {cbool(call['ov'])})")
+                except HarnessError:
+                    api_modelled = False
             after_tree = dump_tree(real, it)
             step["bytes_identical"] = snapshot(real) == before_snap
             # what a write of the same graph to an EMPTY location gives
@@ -263,14 +319,21 @@ def run_impl(c):
                 except Exception as e:
                     step["lib_back"] = f"read raised {type(e).__name__}: {e}"[:120]
             obs["steps"].append(step)
-            if modelled and tree_printable(after_tree):
+            if api_modelled and tree_printable(after_tree):
+                r = "(Ok tt)" if step["res"][0] == "ok" else f"(Err {step['res'][1]})"
+                coq_steps.append(f"({r}, {c_otree(after_tree)})")
+            elif api_modelled:
+                api_modelled = False
+            if api_modelled:
+                pass
+            elif modelled and tree_printable(after_tree):
                 r = "(Ok tt)" if step["res"][0] == "ok" else f"(Err {step['res'][1]})"
                 coq_steps.append(f"({r}, {c_otree(after_tree)})")
             else:
                 modelled = False
-        if modelled and tree_printable(pre_tree):
+        if (modelled or api_modelled) and tree_printable(pre_tree):
             kind = "KPath" if c["store"] in ("path", "str", "tilde") else "KObj"
-            obs["coq"] = f"(IHist {kind} {c_otree(pre_tree)} {clist(coq_calls)}, OHist {clist(coq_steps)})"
+            obs["coq"] = f"({'IApiHist' if api_modelled else 'IHist'} {kind} {c_otree(pre_tree)} {clist(coq_calls)}, OHist {clist(coq_steps)})"
     finally:
         if path is not None:
             shutil.rmtree(path, ignore_errors=True)
@@ -286,7 +349,7 @@ def coq_case(c, o):
 def oracle(c, o):
     fmt_change = len(set(c["fmt"])) > 1
     for i, (call, st) in enumerate(zip(c["calls"], o["steps"])):
-        tags = {"step": i, "store": "object" if c["store"] in ("mem", "local") else ("tilde" if c["store"] == "tilde" else "path"), "entry": c["entry"], "fmt_change": fmt_change}
+        tags = {"step": i, "store": "object" if c["store"] in ("mem", "local") else (c["store"] if c["store"] in ("tilde", "mixed") else "path"), "pre": c["pre"], "entry": c["entry"], "fmt_change": fmt_change}
         if fmt_change:
             tags["formats"] = f"{c['fmt'][0]}->{c['fmt'][1]}"
         if st["existed"] and not call["ov"]:
